@@ -2,6 +2,10 @@
 import itertools, random
 import dbggen, dbgcommon
 
+# observations the property does not speak about: a difference in these alone breaks the correspondence
+# but is not an input on which the property fails (reported with no-failing-input-found)
+AUX = ('cmds differs',)
+
 ASSUMPTIONS = ["pause points are observed with `registers` after every resuming command and the breakpoint list with `break list` / the attached debugger's list at `exit`"]
 
 STMTS = ["add r0 r0 #1", "add r1 r1 #2", "and r2 r2 #0", "not r3 r3", "add r0 r0 #1", "add r4 r4 #-1"]
@@ -78,7 +82,7 @@ def correspondence(ctx, violations, known_hits):
                 return "implementation's breakpoint list is not sorted / has duplicates"
         return None
 
-    r = dbgcommon.run_dbg_cases(ctx, cases, tags, violations, profiles, extra=sorted_check,
+    r = dbgcommon.run_dbg_cases(ctx, cases, tags, violations, profiles, aux=AUX, extra=sorted_check,
                                 note="model: a breakpoint at PC pauses before execution on every arrival (C11_fires); list sorted and duplicate-free (C11_sorted)")
     ctx.cleanup()
     return dbgcommon.coverage(r,
